@@ -406,7 +406,8 @@ func TestC01(t *testing.T) {
 		name     string
 		def      bool
 		accepted int
-	}{{"no-default-rule", false, 200}, {"default-rule+accepted-202", true, 202}} {
+		verbose  bool
+	}{{"no-default-rule", false, 200, false}, {"default-rule+accepted-202", true, 202, false}, {"verbose-responses+accept-headers", false, 200, true}} {
 		g := &gen{rng: r.Stream("c01-" + variant.name)}
 		var pipes []pipeline
 		for i := 0; i < nRules; i++ {
@@ -488,6 +489,9 @@ func TestC01(t *testing.T) {
 					c.Default = dr
 				}
 				c.Serve.Decision.Respond.With.Accepted.Code = variant.accepted
+				// verbose error responses negotiate a body type with the client's Accept header
+				c.Serve.Decision.Respond.Verbose = variant.verbose
+				c.Serve.Proxy.Respond.Verbose = variant.verbose
 			},
 			RuleSets: func(up string) []*rconfig.RuleSet {
 				rs := &rconfig.RuleSet{Version: "1alpha4", Name: "c01", MetaData: rconfig.MetaData{Source: "c01", Hash: []byte("c01")}}
@@ -546,8 +550,15 @@ func TestC01(t *testing.T) {
 							nontrivial = true
 						}
 					}
+					hdrs := jb.pl.headers()
+					if variant.verbose {
+						// Accept headers incl. ones no supported body type satisfies
+						if acc := []string{"", "image/png", "*/*;q=0", "application/json", "text/html;q=0, application/xml"}[int(core.HashKey(jb.path+fmt.Sprint(jb.pl.Out, jb.pl.Cond))%5)]; acc != "" {
+							hdrs["Accept"] = acc
+						}
+					}
 					for _, ep := range entryPoints {
-						res := tr.send(ep, lreq{Method: "GET", Path: jb.path, Headers: jb.pl.headers()}, variant.accepted)
+						res := tr.send(ep, lreq{Method: "GET", Path: jb.path, Headers: hdrs}, variant.accepted)
 						key := fmt.Sprintf("%s|%s|%s|%v|%v", variant.name, ep, core.Hash(jb.p), jb.pl.Out, jb.pl.Cond)
 						r.Case(key, nontrivial)
 						allowEP, reasonEP := allow, reason
